@@ -121,6 +121,8 @@ theorem wsAllLeafX (S : WStable P) : LeafX (WsAll P) where
   setStopping := by unfold setStopping; ws_same
   setRestarting := by unfold setRestarting; ws_same
   setLoopStop := fun b => by unfold setLoopStop; ws_same
+  setSocketEvent := fun b => by unfold setSocketEvent; ws_same
+  setSockReady := fun b => by unfold setSockReady; ws_same
   clearDone := by unfold clearDone; ws_same
   unregister := fun u => by unfold unregisterWatcher; ws_same
   registerNew := fun w _ => wsAll_registerNew S w
